@@ -227,7 +227,7 @@ fn op_strategy(main: u8, nkeys: u8, ckeys: u8) -> impl Strategy<Value = Op> {
         14 => (query(main), kk()).prop_map(|(q, k)| Op::Search { q, k }),
         6 => (query(main), kk(), 0u8..3).prop_map(|(q, k, metric)| Op::SearchMetric { q, k, metric }),
         6 => (query(main), kk(), filt(), 0u8..3, 1u8..4).prop_map(|(q, k, f, strat, over)| Op::SearchFiltered { q, k, f, strat, over }),
-        2 => (0u8..2, 0u8..3).prop_map(|(storage, cfg)| Op::HnswBuild { storage, cfg }),
+        2 => (0u8..2, 0u8..12).prop_map(|(storage, cfg)| Op::HnswBuild { storage, cfg }),
         3 => (query(main), kk(), 0u8..4).prop_map(|(q, k, mode)| Op::HnswSearch { q, k, mode }),
         3 => key().prop_map(|key| Op::Get { key }),
         7 => (ckey(), any::<u16>(), prop::option::weighted(0.5, (0u8..4, -1i8..5))).prop_map(|(key, v, meta)| Op::CStore { key, v, meta }),
